@@ -55,7 +55,7 @@ pub const RAW: &[&str] = &[
     "{ t 65 0; } 5> f5 6< /dev/null",
     "{ t 65 0; } 5> f5 6< ./missing-file",
     "t 66 0 | cat | cat",
-    "t 66 0 | nosuchcmd-xyz | cat",
+    "t 66 0 | { cat >/dev/null; nosuchcmd-xyz; } | cat",
     "( eval 'if then' ) 2>/dev/null",
     "cd /nonexistent-dir",
     "echo \"${W:1:-9}\"",
@@ -230,7 +230,15 @@ fn err_iters(err: &str) -> Vec<String> {
     if let Some(c) = cur.take() {
         v.push(c);
     }
-    v
+    // the stages of a pipeline run concurrently, so the order of their diagnostics is not fixed: compare
+    // each iteration's diagnostics as a multiset of lines
+    v.into_iter()
+        .map(|it| {
+            let mut lines: Vec<&str> = it.lines().collect();
+            lines.sort_unstable();
+            lines.join("\n")
+        })
+        .collect()
 }
 
 /// None = property holds on this observation; Some(reason) otherwise.  Err = nothing to compare.
@@ -394,7 +402,7 @@ pub fn run(run: &mut PropRun, ctx: &Ctx) {
                 assignments; return out of nested loops; process substitutions; background jobs; exec redirections; pushd; arithmetic and substring errors), executed N in {2, 3..30, 50 (quick) / 500 \
                 (thorough)} times in one brush process as repeated text, as a function body, through eval, or through `source`; oracle: the probe line after iteration 2 and N (open descriptors and zombie \
                 children of the shell read from /proc by an external helper once stable, ${#FUNCNAME[@]}, ${#BASH_SOURCE[@]}, $#, visibility of the temporary variable, directory-stack depth, \
-                `local` still failing at top level) equals the one after iteration 1, and every iteration's stdout and (digit-normalised) stderr equals the first iteration's; a failure is \
+                `local` still failing at top level) equals the one after iteration 1, and every iteration's stdout and (digit-normalised, line-sorted) stderr equals the first iteration's; a failure is \
                 reported only if bash satisfies the same relation on the same script and the failure reproduces; non-trivial = N >= 10, at least one fault leaf, nesting depth >= 1"
         .into();
     run.assumptions.push("descriptor and zombie counts are sampled from outside the shell until three samples 10 ms apart agree".into());
